@@ -397,3 +397,158 @@ Proof.
       unfold zlen in *. rewrite <- !app_assoc. apply Hs. unfold TWO32 in Hr. lia.
 Qed.
 End WellFormed.
+
+(* ---------------------------------------------------------------- decode-encode-decode for any accepted byte string *)
+
+Section Sound.
+Variable E : env.
+Variable v : Z.
+Hypothesis HE : env_ok E = true.
+
+Definition SoundAt (rdf : Z -> kind -> bytes -> option (value * bytes))
+                   (wrf : Z -> kind -> value -> option bytes) (wff : kind -> value -> bool) : Prop :=
+  forall tag k bs x rest, tag_ok tag = true -> bytes_ok bs = true -> zlen bs < TWO31 ->
+    rdf tag k bs = Some (x, rest) ->
+    exists used bs', bs = used ++ rest /\ 8 <= zlen used /\ wff k x = true /\
+                     wrf tag k x = Some bs' /\ zlen bs' <= 2 * zlen used.
+
+Section Items.
+Variable rdf : Z -> kind -> bytes -> option (value * bytes).
+Variable wrf : Z -> kind -> value -> option bytes.
+Variable wff : kind -> value -> bool.
+Hypothesis Hsound : SoundAt rdf wrf wff.
+
+Lemma rd_many_sound tag k : tag_ok tag = true -> forall lfuel bs xs rest,
+  bytes_ok bs = true -> zlen bs < TWO31 ->
+  rd_many (rdf tag k) tag lfuel bs = Some (xs, rest) ->
+  exists used bs', bs = used ++ rest /\ forallb (wff k) xs = true /\
+                   opt_concat (map (wrf tag k) xs) = Some bs' /\ zlen bs' <= 2 * zlen used.
+Proof.
+  intros Ht. induction lfuel as [|lf IH]; intros bs xs rest Hok Hs H; [discriminate|].
+  cbn [rd_many] in H. destruct (is_tag_next tag bs).
+  - destruct (rdf tag k bs) as [[x r]|] eqn:E1; [|discriminate].
+    destruct (rd_many (rdf tag k) tag lf r) as [[xs' r']|] eqn:E2; [|discriminate].
+    injection H as <- <-.
+    destruct (Hsound tag k bs x r Ht Hok Hs E1) as (u1 & b1 & -> & Hu1 & Hw1 & Hb1 & Hl1).
+    apply bytes_ok_app in Hok as [_ Hokr]. rewrite zlen_app in Hs. pose proof (zlen_nonneg u1).
+    destruct (IH r xs' r' Hokr ltac:(lia) E2) as (u2 & b2 & -> & Hw2 & Hb2 & Hl2).
+    exists (u1 ++ u2), (b1 ++ b2). rewrite <- app_assoc. split; [reflexivity|].
+    split; [cbn; rewrite Hw1, Hw2; reflexivity|]. split; [cbn [map opt_concat]; rewrite Hb1, Hb2; reflexivity|].
+    rewrite !zlen_app. lia.
+  - injection H as <- <-. exists [], []. cbn. repeat split; try reflexivity; try (unfold zlen; cbn; lia).
+Qed.
+
+Lemma rd_field_sound it bs fs rest : tag_ok (i_tag it) = true ->
+  bytes_ok bs = true -> zlen bs < TWO31 ->
+  rd_field (rdf (i_tag it) (i_kind it)) it bs = Some (fs, rest) ->
+  exists used bs', bs = used ++ rest /\ forallb (wff (i_kind it)) fs = true /\
+                   enc_field wrf (it, fs) = Some bs' /\ zlen bs' <= 2 * zlen used.
+Proof.
+  intros Ht Hok Hs H. unfold rd_field in H. unfold enc_field. cbn [fst snd].
+  destruct (i_mult it) eqn:Em.
+  - destruct (is_tag_next (i_tag it) bs); [|discriminate].
+    destruct (rdf (i_tag it) (i_kind it) bs) as [[x r]|] eqn:E1; [|discriminate]. injection H as <- <-.
+    destruct (Hsound _ _ bs x r Ht Hok Hs E1) as (u1 & b1 & -> & Hu1 & Hw1 & Hb1 & Hl1).
+    exists u1, b1. cbn. rewrite Hw1, Hb1, app_nil_r. repeat split; try reflexivity; assumption.
+  - destruct (is_tag_next (i_tag it) bs).
+    + destruct (rdf (i_tag it) (i_kind it) bs) as [[x r]|] eqn:E1; [|discriminate]. injection H as <- <-.
+      destruct (Hsound _ _ bs x r Ht Hok Hs E1) as (u1 & b1 & -> & Hu1 & Hw1 & Hb1 & Hl1).
+      exists u1, b1. cbn. rewrite Hw1, Hb1, app_nil_r. repeat split; try reflexivity; assumption.
+    + injection H as <- <-. exists [], []. cbn. repeat split; try reflexivity; try (unfold zlen; cbn; lia).
+  - cbn [mult_ok]. apply (rd_many_sound (i_tag it) (i_kind it) Ht _ bs fs rest Hok Hs H).
+Qed.
+
+Lemma rd_items_sound items : (forall it, In it items -> tag_ok (i_tag it) = true) ->
+  forall bs fields rest, bytes_ok bs = true -> zlen bs < TWO31 ->
+  rd_items rdf items bs = Some (fields, rest) ->
+  exists used body, bs = used ++ rest /\ List.length items = List.length fields /\
+     forallb (fun p => forallb (wff (i_kind (fst p))) (snd p)) (combine items fields) = true /\
+     opt_concat (map (enc_field wrf) (combine items fields)) = Some body /\ zlen body <= 2 * zlen used.
+Proof.
+  induction items as [|it items IH]; intros Htags bs fields rest Hok Hs H.
+  - cbn in H. injection H as <- <-. exists [], []. cbn. repeat split; try reflexivity; try (unfold zlen; cbn; lia).
+  - cbn [rd_items] in H.
+    destruct (rd_field (rdf (i_tag it) (i_kind it)) it bs) as [[f r]|] eqn:E1; [|discriminate].
+    destruct (rd_items rdf items r) as [[fs r']|] eqn:E2; [|discriminate]. injection H as <- <-.
+    destruct (rd_field_sound it bs f r (Htags it (or_introl eq_refl)) Hok Hs E1) as (u1 & b1 & -> & Hw1 & Hb1 & Hl1).
+    apply bytes_ok_app in Hok as [_ Hokr]. rewrite zlen_app in Hs. pose proof (zlen_nonneg u1).
+    destruct (IH (fun it' Hin => Htags it' (or_intror Hin)) r fs r' Hokr ltac:(lia) E2)
+      as (u2 & b2 & -> & Hlen & Hw2 & Hb2 & Hl2).
+    exists (u1 ++ u2), (b1 ++ b2). rewrite <- app_assoc. split; [reflexivity|].
+    split; [cbn; lia|]. split; [cbn [combine forallb fst snd]; rewrite Hw1, Hw2; reflexivity|].
+    split; [cbn [combine map opt_concat]; rewrite Hb1, Hb2; reflexivity|]. rewrite !zlen_app. lia.
+Qed.
+End Items.
+
+Theorem rd_sound : In v VERSIONS -> forall fuel, SoundAt (rd E v fuel) (wr E v fuel) (wfv E v fuel).
+Proof.
+  intros Hv. induction fuel as [|f IH]; intros tag k bs x rest Ht Hok Hs H; [discriminate|].
+  cbn [rd] in H. cbn [wr wfv].
+  destruct k as [t|e|c].
+  - destruct (ptype_eqb t PEnum) eqn:Ene; [discriminate|].
+    destruct (dec_prim (fun _ => false) t tag bs) as [[p r]|] eqn:Ed; [|discriminate]. injection H as <- <-. cbn [wr wfv].
+    destruct (dec_sound (fun _ => false) t tag bs p r Ht Hok Hs Ed) as (used & bs' & -> & Hu & Henc & Hl & Hwf & Hty).
+    exists used, bs'. split; [reflexivity|]. split; [exact Hu|]. subst t.
+    split.
+    + destruct p; try reflexivity. cbn [wf_prim] in Hwf. apply andb_prop in Hwf as [Hb _]. exact Hb.
+    + replace (ptype_eqb (ptype_of p) (ptype_of p)) with true by (symmetry; apply ptype_eqb_eq; reflexivity).
+      cbn [andb negb]. split; [exact Henc|lia].
+  - destruct (dec_prim (enum_mem E e) PEnum tag bs) as [[p r]|] eqn:Ed; [|discriminate]. injection H as <- <-. cbn [wr wfv].
+    destruct (dec_sound (enum_mem E e) PEnum tag bs p r Ht Hok Hs Ed) as (used & bs' & -> & Hu & Henc & Hl & Hwf & Hty).
+    exists used, bs'. split; [reflexivity|]. split; [exact Hu|].
+    destruct p; try discriminate. cbn [wf_prim] in Hwf. apply andb_prop in Hwf as [_ Hm].
+    split; [exact Hm|]. split; [exact Henc|lia].
+  - destruct (find_cls E c) as [k|] eqn:Ec; [|discriminate].
+    pose proof (cls_ok_of E HE c k Ec) as Hk.
+    assert (Hrw : c_rd k = c_wr k).
+    { unfold cls_ok in Hk. apply andb_prop in Hk as [Hk _]. apply andb_prop in Hk as [Hk _].
+      apply items_eqb_eq. exact Hk. }
+    destruct (dec_hdr tag STRUCT_CODE bs) as [[len r]|] eqn:Eh; [|discriminate].
+    destruct (dec_hdr_spec _ _ _ _ _ Eh Hok) as (h & -> & Lh & Hlen & Hr).
+    set (n := Z.to_nat (Z.min len (zlen r))) in *.
+    destruct (rd_items (rd E v f) (filter (active v) (c_rd k)) (firstn n r)) as [[fields leftover]|] eqn:Ei; [|discriminate].
+    destruct (c_oversize_check k && negb (Nat.eqb (List.length leftover) 0)); [discriminate|]. injection H as <- <-. cbn [wr wfv].
+    assert (Hsplit : r = firstn n r ++ skipn n r) by (symmetry; apply firstn_skipn).
+    assert (Hoksub : bytes_ok (firstn n r) = true) by (rewrite Hsplit in Hr; apply bytes_ok_app in Hr; tauto).
+    rewrite zlen_app in Hs.
+    assert (Hsub_le : zlen (firstn n r) <= zlen r).
+    { rewrite Hsplit at 2. rewrite zlen_app. pose proof (zlen_nonneg (skipn n r)). lia. }
+    pose proof (zlen_nonneg r).
+    destruct (rd_items_sound (rd E v f) (wr E v f) (wfv E v f) IH (filter (active v) (c_rd k))) with
+        (bs := firstn n r) (fields := fields) (rest := leftover)
+      as (usedsub & body & Hsubeq & Hlenf & Hwff & Hbody & Hlb); try assumption; [| lia |].
+    { intros it Hin. apply filter_In in Hin as [Hin _].
+      unfold cls_ok in Hk. apply andb_prop in Hk as [Hk _]. apply andb_prop in Hk as [_ Hk].
+      rewrite forallb_forall in Hk. specialize (Hk it Hin). apply andb_prop in Hk as [Hk _]. exact Hk. }
+    assert (Hus : zlen usedsub <= zlen (firstn n r)).
+    { rewrite Hsubeq, zlen_app. pose proof (zlen_nonneg leftover). lia. }
+    rewrite Hrw in *.
+    exists (h ++ firstn n r).
+    assert (Hhdr : exists hb, hdr tag STRUCT_CODE (zlen body) = Some hb).
+    { apply hdr_total. pose proof (zlen_nonneg body). unfold TWO31, TWO32 in *. lia. }
+    destruct Hhdr as [hb Hhb].
+    exists (hb ++ body). split; [rewrite <- app_assoc; f_equal; exact Hsplit|].
+    split; [rewrite zlen_app; pose proof (zlen_nonneg (firstn n r)); lia|].
+    split; [exact Hwff|].
+    rewrite <- Hlenf, Nat.eqb_refl. cbn [negb]. rewrite Hbody. unfold with_hdr. rewrite Hhb.
+    split; [reflexivity|].
+    assert (zlen hb = 8).
+    { unfold hdr in Hhb. destruct ((0 <=? zlen body) && (zlen body <? TWO32)); [|discriminate].
+      assert (hb = be_enc 3 tag ++ [STRUCT_CODE] ++ be_enc 4 (zlen body)) by congruence. subst hb.
+      rewrite !zlen_app, !zlen_be_enc. unfold zlen. cbn. lia. }
+    rewrite !zlen_app. lia.
+Qed.
+
+(* the statement the property asks for: for any byte string the decoder accepts,
+   decode - encode - decode gives the same value as the first decode *)
+Theorem dec_enc_dec_struct : In v VERSIONS ->
+  forall fuel tag k bs x rest, tag_ok tag = true -> bytes_ok bs = true -> zlen bs < TWO31 ->
+  rd E v fuel tag k bs = Some (x, rest) ->
+  exists bs', wr E v fuel tag k x = Some bs' /\
+              forall rest', rd E v fuel tag k (bs' ++ rest') = Some (x, rest').
+Proof.
+  intros Hv fuel tag k bs x rest Ht Hok Hs H.
+  destruct (rd_sound Hv fuel tag k bs x rest Ht Hok Hs H) as (used & bs' & _ & _ & Hwf & Hw & _).
+  exists bs'. split; [exact Hw|]. intros rest'. exact (roundtrip E v HE Hv fuel tag k x bs' Ht Hwf Hw rest').
+Qed.
+End Sound.
